@@ -552,6 +552,14 @@ def binop(ex, op, l, r, inplace=False):
             return SList(l.items * r, l.kind)
         if isinstance(r, SList) and isinstance(l, SInt):
             l, r = r, l
+        if isinstance(l, SList) and isinstance(r, SInt) and l.mid is None and len(l.items) == 1 \
+                and is_num(l.items[0]):
+            # n * [v]: a segment of n equal numbers
+            v = l.items[0]
+            out = SList([], l.kind)
+            out.mid = SymSeg(z3.If(r.t > 0, r.t, 0), lambda i, v=v: v, 0, tag='const')
+            out.mid.const = v
+            return out
         if isinstance(l, SList) and isinstance(r, SInt):
             for n in range(0, 17):
                 if ex.branch(mk_bool(r.t == n if n else r.t <= 0)):
